@@ -149,7 +149,7 @@ def initial_state(cfg):
 
 
 @st.composite
-def properties(draw, cfg, yield_ratio=(1e-3, 1e-1)):
+def properties(draw, cfg, yield_ratio=(-5, -1)):
     """Admissible numeric properties (vector in cfg.pnames order) and the stiffness scale."""
     E = draw(gen.logfloat(-2, 4))
     nu = draw(gen.floats(-0.5, 0.45))
@@ -161,7 +161,8 @@ def properties(draw, cfg, yield_ratio=(1e-3, 1e-1)):
     vals['bulk modulus'] = K
     vals['shear modulus'] = mu
     vals['Jm parameter'] = draw(gen.floats(3.0, 100.0))
-    Y0 = E * draw(gen.floats(*yield_ratio))
+    # yield strain Y0/E over four decades (soft pure metals are near 1e-4), as decimal exponents
+    Y0 = E * draw(gen.logfloat(*yield_ratio))
     vals['yield strength'] = Y0
     vals['hardening modulus'] = E * draw(st.sampled_from([0.001, 0.01, 0.1, 1.0, 0.0]))
     vals['saturation strength'] = Y0 * draw(gen.floats(1.1, 3.0))
@@ -173,10 +174,11 @@ def properties(draw, cfg, yield_ratio=(1e-3, 1e-1)):
     vals['equilibrium bulk modulus'] = K
     vals['equilibrium shear modulus'] = mu
     vals['non equilibrium shear modulus'] = mu * draw(gen.logfloat(-2, 2))
-    vals['relaxation time'] = draw(gen.logfloat(-2, 2))
+    # absolute time scales over ten decades (microseconds to hours): a relative dt/tau must mean the same at each of them
+    vals['relaxation time'] = draw(gen.logfloat(-7, 3))
     for n in (1, 2, 3):
         vals['non equilibrium shear modulus %d' % n] = mu * draw(gen.logfloat(-2, 2))
-        vals['relaxation time %d' % n] = draw(gen.logfloat(-2, 2))
+        vals['relaxation time %d' % n] = draw(gen.logfloat(-7, 3))
     vals['critical energy release rate'] = draw(gen.logfloat(-2, 2))
     vals['regularization length'] = draw(gen.logfloat(-2, 0))
     pvec = [float(vals[n]) for n in cfg.pnames]
